@@ -243,10 +243,11 @@ def run_check(pid: str, tier: str, base_seed: int, runs: int | None, workers: in
         # ---- triage violations: minimise one representative per class
         reported: list[dict[str, Any]] = []
         exit_code = 0
-        for key, info in sorted(viol_classes.items()):
+        for nclass, (key, info) in enumerate(sorted(viol_classes.items())):
             v = info["violation"]
             k = match_known(pid, v, known)
-            vals, final, used = minimise(pool, info["tape"], key)
+            # minimisation budget is spent on the first classes only; the rest keep their shortest tape
+            vals, final, used = minimise(pool, info["tape"], key, budget=250 if nclass < 6 else 1)
             rep = {
                 "property": pid, "clause": v["clause"], "signature": v["signature"], "detail": v["detail"],
                 "seed": info["seed"], "base_seed": base_seed, "class": key, "runs_hit": info["hits"],
